@@ -1,1 +1,116 @@
 //! Verification hooks: alloc (see verif/mod.rs).
+//!
+//! * plain, public snapshot types of the worker resource allocator state (filled by the guarded
+//!   `verif_snapshot` methods at the end of `pool.rs`, `concise.rs` and `allocator.rs`),
+//! * a thread-local recorder of the `group_solver` results (the solver is an external MILP library;
+//!   its output is a *choice* of the real run that the model takes as input),
+//! * `VerifAllocator`: a thin wrapper owning a real `ResourceAllocator`; every method calls the
+//!   production function of the same name.
+use std::cell::RefCell;
+use std::rc::Rc;
+
+use crate::internal::worker::resources::allocator::ResourceAllocator;
+use crate::internal::worker::resources::map::ResourceLabelMap;
+use crate::resources::{Allocation, ResourceDescriptor, ResourceIdMap, ResourceRequest};
+
+pub use crate::internal::common::resources::ResourceId;
+pub use crate::internal::common::resources::allocation::AllocationIndex;
+
+/// State of one `ResourcePool`. Amounts are in fractions (1/10000 units).
+/// Free index vectors are in `Vec` order exactly as stored (last = next `pop`); fraction maps are
+/// sorted by index and contain zero-valued entries.
+#[derive(Debug, Clone, PartialEq, Eq)]
+pub enum PoolSnapshot {
+    Empty,
+    Indices {
+        full: u64,
+        free: Vec<u32>,
+        fractions: Vec<(u32, u32)>,
+    },
+    Groups {
+        full: u64,
+        free: Vec<Vec<u32>>,
+        fractions: Vec<Vec<(u32, u32)>>,
+    },
+    Sum {
+        full: u64,
+        free: u64,
+    },
+}
+
+/// State of one `ConciseResourceState`: per group (units, fractions sorted by index, zeros included).
+#[derive(Debug, Clone, PartialEq, Eq)]
+pub struct ConciseSnapshot(pub Vec<(u32, Vec<(u32, u32)>)>);
+
+#[derive(Debug, Clone, PartialEq, Eq)]
+pub struct AllocatorSnapshot {
+    /// one per resource id, `0..pools.len()`
+    pub pools: Vec<PoolSnapshot>,
+    /// `free_resources`, one per resource id
+    pub concise: Vec<ConciseSnapshot>,
+}
+
+/// One record per call of `group_solver`: `None` = the solver returned `None`,
+/// `Some((selected group sets per coupled entry, objective value))` otherwise.
+pub type SolverRecord = Option<(Vec<Vec<usize>>, f64)>;
+
+thread_local! {
+    static SOLVER_LOG: RefCell<Vec<SolverRecord>> = const { RefCell::new(Vec::new()) };
+}
+
+/// Called at the very beginning of `group_solver`.
+pub fn record_solver_begin() {
+    SOLVER_LOG.with(|log| log.borrow_mut().push(None));
+}
+
+/// Called right before `group_solver` returns `Some(..)`; completes the record opened by
+/// `record_solver_begin`.
+pub fn record_solver_result(groups: Vec<Vec<usize>>, objective_value: f64) {
+    SOLVER_LOG.with(|log| {
+        let mut log = log.borrow_mut();
+        match log.last_mut() {
+            Some(slot @ None) => *slot = Some((groups, objective_value)),
+            _ => log.push(Some((groups, objective_value))),
+        }
+    });
+}
+
+/// Drains the log of the current thread.
+pub fn take_solver_log() -> Vec<SolverRecord> {
+    SOLVER_LOG.with(|log| std::mem::take(&mut *log.borrow_mut()))
+}
+
+pub fn clear_solver_log() {
+    SOLVER_LOG.with(|log| log.borrow_mut().clear());
+}
+
+pub struct VerifAllocator {
+    allocator: ResourceAllocator,
+}
+
+impl VerifAllocator {
+    /// Like `tests::utils::shared::res_allocator_from_descriptor`, but with an explicit name vector
+    /// (position = resource id), so that resource ids may have gaps (`ResourcePool::Empty`).
+    pub fn new(desc: &ResourceDescriptor, names: Vec<String>) -> Self {
+        let resource_map = ResourceIdMap::from_vec(names);
+        let label_map = ResourceLabelMap::new(desc, &resource_map);
+        let allocator = ResourceAllocator::new(desc, &resource_map, &label_map);
+        VerifAllocator { allocator }
+    }
+
+    pub fn try_allocate(&mut self, request: &ResourceRequest) -> Option<Rc<Allocation>> {
+        self.allocator.try_allocate(request)
+    }
+
+    pub fn is_enabled(&self, request: &ResourceRequest) -> bool {
+        self.allocator.is_enabled(request)
+    }
+
+    pub fn release_allocation(&mut self, allocation: Rc<Allocation>) {
+        self.allocator.release_allocation(allocation)
+    }
+
+    pub fn snapshot(&self) -> AllocatorSnapshot {
+        self.allocator.verif_snapshot()
+    }
+}
